@@ -35,6 +35,7 @@ type Engine struct {
 	goArgs   [][2]interface{}
 	verif    string
 	funcIDs  map[string]int
+	schemaOdd []string // model types with an UpdateList method that do not have the one-slice-field list shape
 	chanMade map[string]bool // element types of channels created in the repository packages
 	chanSent map[string]bool // element types of channels the repository packages send on
 }
@@ -122,6 +123,62 @@ func loadEngine(repo, verif string) (*Engine, error) {
 				return nil, fmt.Errorf("%s must contain no declarations", name)
 			}
 		}
+	}
+	schemaUpdateLists = nil
+	for _, p := range pkgs {
+		if p.Name != "model" {
+			continue
+		}
+		sc := p.Types.Scope()
+		names := sc.Names()
+		sort.Strings(names)
+		for _, n := range names {
+			tn, ok := sc.Lookup(n).(*types.TypeName)
+			if !ok {
+				continue
+			}
+			named, ok := tn.Type().(*types.Named)
+			if !ok {
+				continue
+			}
+			stt, ok := named.Underlying().(*types.Struct)
+			if !ok {
+				continue
+			}
+			m, _, _ := types.LookupFieldOrMethod(types.NewPointer(named), true, p.Types, "UpdateList")
+			fn, ok := m.(*types.Func)
+			if !ok || fn.Type().(*types.Signature).Params().Len() != 5 {
+				continue
+			}
+			var fld, elem string
+			cnt := 0
+			for i := 0; i < stt.NumFields(); i++ {
+				if sl, ok := stt.Field(i).Type().(*types.Slice); ok {
+					if en, ok := sl.Elem().(*types.Named); ok {
+						fld, elem = stt.Field(i).Name(), en.Obj().Name()
+						cnt++
+					}
+				}
+			}
+			if cnt != 1 {
+				// not of the list shape: left to a hand-written contract (reported by the C02 check)
+				schemaUpdateLists = append(schemaUpdateLists, [3]string{n, "", ""})
+				continue
+			}
+			schemaUpdateLists = append(schemaUpdateLists, [3]string{n, fld, elem})
+		}
+	}
+	{
+		var ok [][3]string
+		e.schemaOdd = nil
+		for _, s := range schemaUpdateLists {
+			if s[1] == "" {
+				e.schemaOdd = append(e.schemaOdd, s[0])
+			} else {
+				ok = append(ok, s)
+			}
+		}
+		schemaUpdateLists = ok
 	}
 	db, err := loadContracts(repo, verif)
 	if err != nil {
